@@ -10,10 +10,13 @@ def T(x):
     return int(x * S) + 7
 
 
-def script(tag, events, rules=(), renders=(), decline=(), mid=4096, tail=150):
+def script(tag, events, rules=(), renders=(), decline=(), mid=4096, tail=150, slow_add=()):
     last = max(ev[1] for ev in events)
-    return {"tag": tag, "events": events, "rules": list(rules), "renders": list(renders),
-            "decline": list(decline), "draws": DRAWS, "mid": mid, "end": last + tail * S + 11}
+    sc = {"tag": tag, "events": events, "rules": list(rules), "renders": list(renders),
+          "decline": list(decline), "draws": DRAWS, "mid": mid, "end": last + tail * S + 11}
+    if slow_add:
+        sc["slow_add"] = list(slow_add)
+    return sc
 
 
 def reg(t, remote=0, mt="CON", mid=100, tok="aa", obs=0):
@@ -26,6 +29,37 @@ def acks(remote, frm=1, to=12, after=0.05):
 
 
 IMM = ["i", 69, 0]
+
+
+def slow_add():
+    """a resource whose add_observation suspends after it has accepted (it persists the subscription, say):
+    every way the registration can end inside that window, and after it.  Judged by the oracle only."""
+    out = []
+    for mt in ("CON", "NON"):
+        enders = {
+            "get": [["R", T(0.5), 0, mt, 101, "aa", None]],
+            "rereg": [["R", T(0.5), 0, mt, 101, "aa", 0]],
+            "dereg": [["R", T(0.5), 0, mt, 101, "aa", 1]],
+            "error": [["E", T(0.5), 0]],
+            "shutdown": [["X", T(0.5)]],
+            "none": [],
+        }
+        for name, evs in enders.items():
+            for when in ("inside", "after", "never-returns"):
+                ev = [reg(0.01, mt=mt)]
+                if when == "inside":
+                    ev += evs + [["O", T(0.9), 0]]
+                elif when == "after":
+                    ev += [["O", T(0.2), 0]] + evs
+                else:
+                    ev += evs
+                ev += [["U", T(1.5), None], ["U", T(2.5), None]]
+                slow = [0, 1] if name == "rereg" else [0]
+                if name == "rereg":
+                    ev.append(["O", T(1.2), 1])
+                sc = script(f"slow-add:{mt}:{name}:{when}", ev, acks(0), slow_add=slow)
+                out.append(sc)
+    return out
 
 
 def first_response():
@@ -275,7 +309,7 @@ def misc():
 
 def boundary_table():
     return (first_response() + trigger_offsets() + bursts() + reactions() + kth_copy() +
-            errors_and_shutdown() + several_observers() + finals() + misc())
+            errors_and_shutdown() + several_observers() + finals() + misc() + slow_add())
 
 
 def random_script(rng, i):
